@@ -14,6 +14,8 @@
  *   --cfgs "cfg;cfg"                 configurations
  *   --len <n>                        all histories up to this length over the alphabet
  *   --scripted 0|1                   include the scripted longer histories
+ *   --classes <mask>                bit i set = generate image class i (0 min 1 max 2 dir-ahead
+ *                                    3 data-ahead 4 intermediate 5 torn)
  *   --nested 0|1|2                   crash points inside recovery (1: for min/max images of
  *                                    distinct outer images, 2: all distinct outer images)
  */
@@ -29,10 +31,12 @@ static const char *DB = "/vfs/db";
 static kcfg_t cfg;
 static const char *prop = "C05";
 static int nested_mode = 1;
+static int class_mask = 0x7f; /* which image classes are generated (bit = class id) */
 static int bg_starve;    /* histories run without automatic draining (explicit W ops) */
 
 static uint64_t n_hist, n_points, n_images, n_distinct_images, n_recoveries, n_nested, n_followups, n_torn, n_full_products;
 static uint64_t n_journal;
+static uint64_t point_counter;
 static vh_set_t outcome_set;
 
 typedef struct hist_s { int n; kop_t ops[MAXOPS]; } hist_t;
@@ -427,6 +431,10 @@ check_image(const rec_t *r, const img_desc_t *d, const size_t *W, const size_t *
   kmodel_t want;
   int i, p;
   char msg[700];
+  if (!(class_mask & (1 << d->cls)) && !replaying) {
+    free(lens);
+    return;
+  }
   fill_lens(r, d, W, S, lens);
   img = vfs_image(r->v, d->t, d->D, lens);
   free(lens);
@@ -621,9 +629,11 @@ explore_history(const hist_t *h) {
     vfs_free(r.v);
     return;
   }
-  n_hist++;
+  if (drv.shard == 0) {
+    n_hist++;
+    n_journal += (uint64_t)r.v->njournal;
+  }
   J = r.v->njournal;
-  n_journal += (uint64_t)J;
   W = malloc(sizeof(size_t) * (size_t)(r.v->ninodes + 1));
   S = malloc(sizeof(size_t) * (size_t)(r.v->ninodes + 1));
   vs_free(&verdict_seen); vs_init(&verdict_seen);
@@ -631,6 +641,9 @@ explore_history(const hist_t *h) {
   for (t = 0; t <= J; t++) {
     int nd = vfs_ndirops_before(r.v, t), wm = vfs_watermark(r.v, t), D;
     img_desc_t d;
+    /* crash points (not histories) are dealt to the shards: histories differ a lot in cost */
+    if (!drv_mine(point_counter++ / 8))
+      continue;
     n_points++;
     vfs_lens_at(r.v, t, W, S);
     memset(&d, 0, sizeof(d));
@@ -705,8 +718,9 @@ enumerate(int len, int with_scripted) {
   hist_t h;
   if (with_scripted)
     for (i = 0; scripted[i] && !stop_now; i++) {
-      if (!drv_mine(caseno++))
-        continue;
+      if (with_scripted < 2 && strchr(scripted[i], 'M'))
+        continue; /* the 700-update batch is expensive: thorough tier only (--scripted 2) */
+      caseno++;
       memset(&h, 0, sizeof(h));
       h.n = khist_parse(h.ops, MAXOPS, scripted[i]);
       if (h.n < 0)
@@ -725,7 +739,7 @@ enumerate(int len, int with_scripted) {
         if (strchr("PDBM", h.ops[i].kind)) writes++;
       }
       /* a history without a write has nothing to lose: skip; first op must be a write */
-      if (writes > 0 && strchr("PDBM", h.ops[0].kind) && drv_mine(caseno++)) {
+      if (writes > 0 && strchr("PDBM", h.ops[0].kind) && ++caseno) {
         explore_history(&h);
         if (drv_deadline_hit()) { stop_now = 1; break; }
       }
@@ -771,6 +785,7 @@ main(int argc, char **argv) {
   kv_set_universe((int)drv_opt_long("universe", 1));
   nested_mode = (int)drv_opt_long("nested", 1);
   bg_starve = (int)drv_opt_long("starve", 0);
+  class_mask = (int)drv_opt_long("classes", 0x7f);
   len = (int)drv_opt_long("len", 2);
   with_scripted = (int)drv_opt_long("scripted", 1);
   cfgs = drv_opt("cfgs", "B1");
